@@ -20,7 +20,9 @@ pub fn cached_client() -> Result<Client, Error> {
 	CLIENT.with(|c| {
 		let mut c = c.borrow_mut();
 		if c.is_none() {
-			let cl = reqwest::ClientBuilder::new().build().map_err(|e| Error::from(e.to_string()))?;
+			let cl = reqwest::ClientBuilder::new()
+				.build()
+				.map_err(|e| Error::from(e.to_string()))?;
 			*c = Some(cl);
 		}
 		Ok(c.as_ref().unwrap().clone())
@@ -46,7 +48,11 @@ pub async fn send(rb: RequestBuilder) -> Result<Response, String> {
 		.iter()
 		.map(|(k, v)| (k.as_str().to_string(), v.to_str().unwrap_or("").to_string()))
 		.collect();
-	let body: Vec<u8> = req.body().and_then(|b| b.as_bytes()).map(|b| b.to_vec()).unwrap_or_default();
+	let body: Vec<u8> = req
+		.body()
+		.and_then(|b| b.as_bytes())
+		.map(|b| b.to_vec())
+		.unwrap_or_default();
 
 	let (tx, ca_idx) = world::with(|w| {
 		let tx = w.id();
@@ -62,7 +68,10 @@ pub async fn send(rb: RequestBuilder) -> Result<Response, String> {
 	let ca_idx = match ca_idx {
 		Some(i) => i,
 		None => {
-			return Err(format!("error sending request for url ({}): dns error: no such host (simulated)", url));
+			return Err(format!(
+				"error sending request for url ({}): dns error: no such host (simulated)",
+				url
+			));
 		}
 	};
 	delay_ns(one_way_ns()).await;
@@ -124,7 +133,9 @@ pub async fn send(rb: RequestBuilder) -> Result<Response, String> {
 				b = b.header(k.as_str(), v.as_str());
 			}
 			let status = r.status;
-			let resp = b.body(r.body).map_err(|e| format!("simulated response build error: {}", e))?;
+			let resp = b
+				.body(r.body)
+				.map_err(|e| format!("simulated response build error: {}", e))?;
 			world::with(|w| {
 				w.push(Ev::NetReply {
 					tx,
